@@ -194,7 +194,7 @@ func (sm Channel_instance) Write_verilog(bmach *Bondmachine, so_index int, chann
 	result += "	//--------------Define the tag parameters of the processor----------------------------\n"
 	result += "	wire [" + strconv.Itoa((num_processors)-1) + ":0] TAG_CH [" + strconv.Itoa((num_processors)-1) + ":0];\n"
 	for proc_id := 0; proc_id < num_processors; proc_id++ {
-		result += "\tlocalparam TAG_CH_" + strconv.Itoa(proc_id) + " = 'b" + strconv.Itoa(proc_id) + ";\n"
+		result += "\tlocalparam TAG_CH_" + strconv.Itoa(proc_id) + " = 'd" + strconv.Itoa(proc_id) + ";\n"
 		result += "\tassign TAG_CH[" + strconv.Itoa(proc_id) + "] = TAG_CH_" + strconv.Itoa(proc_id) + ";\n"
 	}
 
